@@ -311,6 +311,20 @@ class Decl:
         return t.replace("@DECL@", "%s %s" % (kw, name))
 
 
+def hits_minq(d):
+    """does evaluating the declaration pass through the single point MinInt64 / -1 (finding binaryop:int64-quo-minint-by-minus1)?"""
+    M = -(1 << 63)
+    if d.shape in ("dbint", "dbinu"):
+        return d.args[1] == "quo" and d.args[2] == M and d.args[3] == -1
+    if d.shape in ("dbin2t", "dbin2u"):
+        _, op1, op2, x, y, z = d.args
+        if op1 == "quo" and x == M and y == -1:
+            return True
+        r1 = exact_bin(op1, x, y)
+        return op2 == "quo" and r1 == M and z == -1
+    return False
+
+
 def T(k):
     return "@%s@" % k
 
@@ -359,6 +373,24 @@ def gen_decls(ctx):
                 r = exact_bin(op, x, y)
                 exp = "reject" if r is None or not rep(k, r) else "ok:%d" % r
                 decls.append(Decl("dbinu", (k, op, x, y), exp, "@DECL@ %s = %s %s %s" % (T(k), lit_text(rng, x), SYM[op], lit_text(rng, y))))
+        # two-level expressions: typed intermediates are checked, untyped intermediates are exact and unbounded
+        for _ in range(n * 8):
+            op1, op2 = rng.choice(BOPS), rng.choice(BOPS)
+            x, y, z = rng.choice(inr), rng.choice(inr + [0, 1, 2]), rng.choice(inr + [0, 1, 2, hi, lo])
+            r1 = exact_bin(op1, x, y)
+            exp = "reject"
+            if r1 is not None and rep(k, r1):
+                r2 = exact_bin(op2, r1, z)
+                if r2 is not None and rep(k, r2):
+                    exp = "ok:%d" % r2
+            decls.append(Decl("dbin2t", (k, op1, op2, x, y, z), exp, "@DECL@ = (%s(%s) %s %s(%s)) %s %s(%s)" % (
+                T(k), lit_text(rng, x), SYM[op1], T(k), lit_text(rng, y), SYM[op2], T(k), lit_text(rng, z))))
+            x, y, z = rng.choice(pool + [1 << 100]), rng.choice(pool + [1 << 90, 3]), rng.choice(pool + [1 << 100, (1 << 100) - 1, 1 << 90, 5])
+            r1 = exact_bin(op1, x, y)
+            r2 = None if r1 is None else exact_bin(op2, r1, z)
+            exp = "reject" if r2 is None or not rep(k, r2) else "ok:%d" % r2
+            decls.append(Decl("dbin2u", (k, op1, op2, x, y, z), exp, "@DECL@ %s = (%s %s %s) %s %s" % (
+                T(k), lit_text(rng, x), SYM[op1], lit_text(rng, y), SYM[op2], lit_text(rng, z))))
         # shifts
         for op in ("shl", "shr"):
             for _ in range(n * 6):
@@ -723,7 +755,7 @@ def run(ctx):
         nontrivial.add((d.shape,) + tuple(a for a in d.args if isinstance(a, str)) + tuple(vclass(a) for a in ints[:2]) + (acc,))
         exp = d.expect
         if (exp == "reject") != (not acc) or (acc and wv != exp):
-            minq = d.shape in ("dbint", "dbinu") and d.args[1] == "quo" and d.args[2] == -(1 << 63) and d.args[3] == -1
+            minq = hits_minq(d)
             if minq:
                 key = "binaryop:int64-quo-minint-by-minus1"
             elif acc and exp == "reject":
